@@ -39,6 +39,11 @@ class StepLimit(BaseException):
     in steps; the wall-clock alarm is only a backstop)"""
 
 
+class StepBudget(BaseException):
+    """the whole-run budget of metered steps is used up while every single parse request stayed below the per-request
+    limit (fuzz runs): the run is stopped to save time, NOT a verdict"""
+
+
 class _Reg:
     cols: list = []
     adds = 0
@@ -46,8 +51,12 @@ class _Reg:
     completes = 0
     states = 0            # ParseState objects constructed (every loop of the parser builds states)
     pred: list = []
+    request: Optional[dict] = None   # the parse request that is running (start, mode, word, meter at its start)
+    nrequests = 0
     installed = False
     limit: Optional[int] = None      # None = unmetered (C04); set per request from task["step_limit"]
+    per_request = False              # the limit applies to the metered steps of ONE parse request (fuzz runs)
+    total_budget: Optional[int] = None   # with per_request: stop the whole run after so many steps (no verdict)
 
 
 def _install() -> None:
@@ -65,7 +74,7 @@ def _install() -> None:
 
     def state_init(self, *a, **k):
         _Reg.states += 1
-        if _Reg.limit is not None and _Reg.states > 8 * _Reg.limit:
+        if _Reg.limit is not None and not _Reg.per_request and _Reg.states > 8 * _Reg.limit:
             raise StepLimit()
         orig_state_init(self, *a, **k)
 
@@ -75,12 +84,20 @@ def _install() -> None:
         orig_init(self, states)
         _Reg.cols.append(self)
 
+    def over() -> bool:
+        if _Reg.limit is None:
+            return False
+        if _Reg.per_request and _Reg.total_budget is not None and _Reg.adds + _Reg.completes > _Reg.total_budget:
+            raise StepBudget()
+        base = _Reg.request["at"] if (_Reg.per_request and _Reg.request is not None) else 0
+        return _Reg.adds + _Reg.completes - base > _Reg.limit
+
     def add(self, state):
         r = orig_add(self, state)
         _Reg.adds += 1
         if r:
             _Reg.admitted += 1
-        if _Reg.limit is not None and _Reg.adds + _Reg.completes > _Reg.limit:
+        if over():
             raise StepLimit()
         return r
 
@@ -92,14 +109,32 @@ def _install() -> None:
 
     def complete(self, *a, **k):
         _Reg.completes += 1
-        if _Reg.limit is not None and _Reg.adds + _Reg.completes > _Reg.limit:
+        if over():
             raise StepLimit()
         return orig_complete(self, *a, **k)
+
+    orig_new_parse = IterativeParser.new_parse
+    orig_consume = IterativeParser._consume
+
+    def new_parse(self, start="<start>", mode=None, *a, **k):
+        _Reg.nrequests += 1
+        _Reg.request = {"start": start if isinstance(start, str) else start.name(), "mode": getattr(mode, "name", str(mode)),
+                        "word": None, "at": _Reg.adds + _Reg.completes}
+        if mode is None:
+            return orig_new_parse(self, start, *a, **k)
+        return orig_new_parse(self, start, mode, *a, **k)
+
+    def consume(self, char):
+        if _Reg.request is not None and _Reg.request.get("word") is None and isinstance(char, (str, bytes)):
+            _Reg.request["word"] = char
+        return orig_consume(self, char)
 
     Column.__init__ = init
     Column.add = add
     Column.update = update
     IterativeParser.complete = complete
+    IterativeParser.new_parse = new_parse
+    IterativeParser._consume = consume
     _Reg.installed = True
 
 
@@ -107,6 +142,8 @@ def _reset() -> None:
     _Reg.cols = []
     _Reg.adds = _Reg.admitted = _Reg.completes = _Reg.states = 0
     _Reg.pred = []
+    _Reg.request = None
+    _Reg.nrequests = 0
 
 
 # ------------------------------------------------------------------------------------------------
